@@ -875,6 +875,9 @@ pub fn c15(c: &mut Ctx, b: &Budget) {
                 c.check("typed-lookup-agrees", many == composed_many, "typed-lookup-differs", || format!("extract_objects_for_predicate::<{}> gave {:?}, composed {:?}", $name, many, composed_many));
             }}; }
             typed_agrees!(String, "String"); typed_agrees!(u64, "u64"); typed_agrees!(bool, "bool");
+            // ... and against the model, where they are that composition by definition (signed and non-numeric types: unsigned
+            // extraction from a negative leaf is the recorded dcbor finding)
+            for ty in ["i64", "text", "bool", "bytes"] { for op in ["eofp", "eoofp", "eosfp", "eofpd"] { c.obs(&format!("{} {} {} {}", op, e, p, ty)); } }
             // single-result forms
             let r = guarded(|| orig.assertion_with_predicate(pe.clone()));
             match (&r, want.len()) {
